@@ -226,43 +226,45 @@ impl<'a> Tokinizer<'a> {
             return;
         }
         
+        /* Variable name tokens on the left of the assignment must stay untouched */
         for (token_index, token) in self.tokens.iter().enumerate() {
-            match token.deref() {
-                TokenType::Operator('=') | 
-                TokenType::Operator('(')=> {
-                    index = token_index as usize + 1;
-                    break;
-                },
-                _ => ()
-            };
+            if let TokenType::Operator('=') = token.deref() {
+                index = token_index as usize + 1;
+                break;
+            }
         }
 
         if index + 1 >= self.tokens.len() {
             return;
         }
 
-        if let TokenType::Operator('(') = self.tokens[index].deref() {
-            index += 1;
+        /* Expression starts with an operator (for example '- 3 + 5' or '((- 3) + 5)') */
+        let mut first_index = index;
+        while first_index < self.tokens.len() && matches!(self.tokens[first_index].deref(), TokenType::Operator('(')) {
+            first_index += 1;
+        }
+
+        if first_index < self.tokens.len() {
+            if let TokenType::Operator(_) = self.tokens[first_index].deref() {
+                self.tokens.insert(first_index, Rc::new(TokenType::Number(0.0, NumberType::Decimal)));
+            }
         }
 
         let mut operator_required = false;
-
-        if let TokenType::Operator(_) = self.tokens[index].deref() {
-            self.tokens.insert(index, Rc::new(TokenType::Number(0.0, NumberType::Decimal)));
-        }
 
         while index < self.tokens.len() {
             #[cfg(feature = "verif")]
             crate::verif::tick("missing_token_adder");
             match self.tokens[index].deref() {
-                TokenType::Operator(_) => operator_required = false,
+                TokenType::Operator(')') => operator_required = true,
+                TokenType::Operator(operator) if *operator != '(' => operator_required = false,
                 _ => {
                     if operator_required {
                         log::debug!("Added missing operator between two token");
                         self.tokens.insert(index, Rc::new(TokenType::Operator('+')));
                         index += 1;
                     }
-                    operator_required = true;
+                    operator_required = !matches!(self.tokens[index].deref(), TokenType::Operator('('));
                 }
             };
             
